@@ -86,23 +86,27 @@ Definition codebook_ok (l : nat) : Prop := cb_ok l (build_code l).
 Definition radix : nat := 64.
 Definition mwidth (ncols : nat) : nat := (ncols + 63) / 64.
 
+(** one iteration i of the loop; [region] = the columns of the words that are rewritten,
+    [msk] = the columns [c, ncols) that survive mask_begin / mask_end *)
+Definition mt_step (cb : list N * list nat) (M : mat) (r : nat) (region msk : N)
+           (st : list N * list nat) (i : nat) : list N * list nat :=
+  let (ord, inc) := cb in
+  let (T, L) := st in
+  let rowneeded := r + nth (i - 1) inc 0 in
+  let L' := upd (N.to_nat (nth i ord 0%N)) i L in
+  if nr M <=? rowneeded then (T, L')
+  else
+    let t := N.lor (N.ldiff (nth i T 0%N) region)
+                   (N.land (N.lxor (row M rowneeded) (nth (i - 1) T 0%N)) msk) in
+    (upd i t T, L').
+
+Definition mt_region (M : mat) (c : nat) : N :=
+  colmask (radix * (c / radix)) (radix * mwidth (nc M)).
+Definition mt_mask (M : mat) (c : nat) : N := colmask c (nc M).
+
 Definition make_table_cb (cb : list N * list nat) (M : mat) (r c k : nat)
            (T0 : list N) (L0 : list nat) : list N * list nat :=
-  let (ord, inc) := cb in
-  let homeblock := c / radix in
-  let region := colmask (radix * homeblock) (radix * mwidth (nc M)) in   (* words rewritten *)
-  let msk := colmask c (nc M) in                                      (* mask_begin/mask_end *)
-  fold_left
-    (fun (st : list N * list nat) i =>
-       let (T, L) := st in
-       let rowneeded := r + nth (i - 1) inc 0 in
-       let L' := upd (N.to_nat (nth i ord 0%N)) i L in
-       if nr M <=? rowneeded then (T, L')
-       else
-         let t := N.lor (N.ldiff (nth i T 0%N) region)
-                        (N.land (N.lxor (row M rowneeded) (nth (i - 1) T 0%N)) msk) in
-         (upd i t T, L'))
-    (seq 1 (2 ^ k - 1)) (T0, upd 0 0 L0).
+  fold_left (mt_step cb M r (mt_region M c) (mt_mask M c)) (seq 1 (2 ^ k - 1)) (T0, upd 0 0 L0).
 
 Definition make_table (M : mat) (r c k : nat) (T0 : list N) (L0 : list nat) : list N * list nat :=
   make_table_cb (build_code k) M r c k T0 L0.
